@@ -4,7 +4,6 @@ package main
 
 import (
 	"context"
-	"encoding/json"
 	"fmt"
 	"regexp"
 	"sort"
@@ -466,7 +465,7 @@ func c02Run(r *vkit.Run) {
 
 func c02Replay(r *vkit.Run, v vkit.Violation) *vkit.Violation {
 	var in c02Input
-	if err := json.Unmarshal(v.Input, &in); err != nil {
+	if err := vkit.DecodeInput(v, &in); err != nil {
 		r.HarnessError("bad input: %v", err)
 	}
 	return vkit.ReplayOne(r, func() { c02Prelude(); c02Check(r, in) })
